@@ -399,7 +399,8 @@ impl Cell {
     }
     pub fn to_isize(&self) -> Xresult1<isize> {
         match self.value() {
-            Cell::Int(i) => Ok(*i as isize),
+            // an index or count beyond the machine range is out of range of any collection: saturate
+            Cell::Int(i) => Ok((*i).clamp(isize::MIN as Xint, isize::MAX as Xint) as isize),
             val => Err(cell_type_error(INT_TYPE_NAME, val.clone())),
         }
     }
@@ -408,7 +409,7 @@ impl Cell {
         match self.value() {
             Cell::Int(i) if *i < 0 =>
                 Err(cell_type_error(xeh_xstr!("positive integer"), self.clone())),
-            Cell::Int(i) => Ok(*i as usize),
+            Cell::Int(i) => Ok((*i).min(usize::MAX as Xint) as usize),
             val => Err(cell_type_error(INT_TYPE_NAME, val.clone())),
         }
     }
